@@ -238,11 +238,24 @@ def run_history(case, r):
 
 
 def check_helpers(r, tag, stats, rng):
-    from pySDC.helpers.stats_helper import filter_stats, get_sorted, sort_stats
+    from pySDC.helpers.stats_helper import filter_stats, get_list_of_types, get_sorted, sort_stats
 
     keys = list(stats.keys())
     if not keys:
         return
+    # dropping recomputed values must not depend on which other keys are filtered: the multi-type result is the union of the
+    # per-type results (the per-type results are judged against the accepted steps by the callers)
+    types = [t for t in get_list_of_types(stats) if t != '_recomputed']
+    procs = sorted({k.process for k in keys if k.process is not None})
+    for sel in [dict()] + [dict(process=p_) for p_ in procs[:3]] + [dict(level=0)]:
+        try:
+            multi = {k for k in filter_stats(stats, recomputed=False, **sel).keys() if k.type != '_recomputed'}
+        except TypeError:
+            continue  # records without a time cannot take part in the time-based bookkeeping
+        union = set()
+        for t in types:
+            union |= set(filter_stats(stats, type=t, recomputed=False, **sel).keys())
+        r.check(multi == union, 'recomputed-filter-independent-of-type-filter', f'{tag}: filter_stats(recomputed=False, {sel}) keeps {len(multi)} records, the union of the per-type filters keeps {len(union)}; only in one of them: {sorted(map(str, multi ^ union))[:3]}')
     fields = ['process', 'time', 'level', 'iter', 'sweep', 'type', 'num_restarts']
     for _ in range(6):
         k0 = keys[int(rng.integers(0, len(keys)))]
@@ -286,6 +299,18 @@ def run_adaptive(case, r):
 
     # hooks requested by the user in different orders / as subclasses of hooks that dependencies add later
     variants = [[LogSolution, LogWork, H], [LogEmbeddedErrorEstimatePostIter, LogSolution, H], [LogEmbeddedErrorEstimate, LogEmbeddedErrorEstimatePostIter, LogSolution, LogRestarts, LogStepSize, H], [H, LogSolution, LogSolution]]
+    all_hooks = None
+    if case['seed'] % 3 == 0:
+        # every logging hook shipped, on a problem with a closed-form solution (the error hooks evaluate u_exact)
+        from pySDC.implementations.hooks.log_errors import LogGlobalErrorPostIter, LogGlobalErrorPostRun, LogGlobalErrorPostStep, LogLocalErrorPostIter, LogLocalErrorPostStep
+        from pySDC.implementations.hooks.log_timings import CPUTimings
+        from pySDC.implementations.hooks.log_work import LogSDCIterations
+        from pySDC.implementations.problem_classes.TestEquation_0D import testequation0d
+
+        all_hooks = [LogSolution, LogWork, LogSDCIterations, LogStepSize, LogRestarts, LogEmbeddedErrorEstimate, LogEmbeddedErrorEstimatePostIter, LogGlobalErrorPostStep,
+                     LogGlobalErrorPostIter, LogGlobalErrorPostRun, LogLocalErrorPostStep, LogLocalErrorPostIter, CPUTimings, H]
+        variants = [all_hooks]
+        desc.update(problem_class=testequation0d, problem_params=dict(lambdas=np.array([-4.0, -1.0 + 6j]), u0=1.0))
     user_hooks = variants[case['seed'] % len(variants)]
     ctrl = controller_nonMPI(case['procs'], dict(logger_level=50, dump_setup=False, hook_class=user_hooks, mssdc_jac=False), desc)
     hook = find_hook(ctrl, H)
@@ -317,6 +342,31 @@ def run_adaptive(case, r):
             r.check(False, 'recomputed-false-is-accepted-steps', f'{tag}: get_sorted(type={typ!r}, recomputed=False) returns times {got_times[:8]}..., accepted steps have {which} times {exp_times[:8]}...', mech=mech)
         else:
             r.check(True, 'recomputed-false-is-accepted-steps', '')
+    if all_hooks is not None and acc:
+        # every record of every shipped hook is keyed by the start or end time of a step that was actually attempted, and the
+        # run-level error records by the end time of the last accepted step
+        marks = {a['start'] for a in att} | {a['end'] for a in att}
+        t_final = max(a['end'] for a in acc)
+        seen_types = set()
+        for k in stats:
+            if k.time is None or k.type == '_recomputed' or (k.type.startswith('timing_') and k.time == -1):
+                continue  # run-level timings carry the placeholder time -1
+            seen_types.add(k.type)
+            r.check(k.time in marks, 'record-keyed-by-a-step-time', f'{tag}: record {k.type!r} (process {k.process}, iter {k.iter}) is keyed by time {k.time!r}, which is neither the start nor the end of any step attempt of the run')
+            if k.type.endswith('post_run') and k.process == max(a['slot'] for a in acc if a['end'] == t_final):
+                r.check(k.time == t_final, 'run-level-record-keyed-by-final-time', f'{tag}: {k.type!r} is keyed by {k.time!r}, the run ended at {t_final!r}')
+        for need in ('e_global_post_run', 'e_global_post_step', 'e_local_post_step', 'e_global_post_iteration', 'u', 'dt', 'niter', 'work_rhs', 'k'):
+            r.check(need in seen_types, 'requested-hook-records-present', f'{tag}: no {need!r} record although the hook was requested (types: {sorted(seen_types)})')
+        for typ, which in [('e_global_post_step', 'end'), ('e_local_post_step', 'end')]:
+            got_times = [t for t, _ in get_sorted(stats, type=typ, recomputed=False, sortby='time')]
+            exp_times = sorted(a[which] for a in acc)
+            if got_times != exp_times:
+                acc_marks = {a['start'] for a in acc} | {a['end'] for a in acc}
+                rej_marks = {a['start'] for a in rej} | {a['end'] for a in rej}
+                diff = [t for t in got_times if t not in exp_times] + [t for t in exp_times if got_times.count(t) != exp_times.count(t)]
+                mech = 'stale-attempt-record-survives-when-its-time-coincides-with-an-accepted-step' if diff and all((t in rej_marks) and (t in acc_marks) for t in diff) else None
+                r.check(False, 'recomputed-false-is-accepted-steps', f'{tag}: get_sorted(type={typ!r}, recomputed=False) returns times {got_times[:8]}..., accepted steps end at {exp_times[:8]}...', mech=mech)
+        r.count('all_hooks_runs')
     check_helpers(r, tag, stats, np.random.default_rng(case['seed']))
     r.nontrivial = len(acc) >= 1
     r.count('attempts', len(att))
